@@ -14,6 +14,8 @@ structure St where
   hi : Nat := 0
   /-- capacity of the read-handle LRU (`open_files_limit`; 256 = the builder default) -/
   cap : Nat := 256
+  /-- ids of the data files that exist (a fresh directory has none) -/
+  present : List Nat := []
 
 def hexDigit (n : Nat) : Char :=
   if n < 10 then Char.ofNat (48 + n) else Char.ofNat (87 + n)
@@ -81,25 +83,31 @@ def step (s : St) (ts : List String) : St × String :=
     | some h => (s, s!"cache={if h.cache.isEmpty then "-" else ",".intercalate (h.cache.map toString)}")
     | none => (s, "bad-op")
   | ["open"] =>
-    match openL s.cap s.disk with
-    | some (h, d) => ({ s with disk := d, h := some h }, s!"ok {h.number}")
-    | none => ({ s with h := none }, "err")
+    let r := openX s.cap s.disk s.present
+    match r.h with
+    | some h => ({ s with disk := r.d, h := some h, present := r.present }, s!"ok {h.number}")
+    | none => ({ s with disk := r.d, h := none, present := r.present }, "err")
+  | ["present"] =>
+    let ids := (List.range (s.present.foldl max 0 + 1)).filter fun i => s.present.contains i
+    (s, s!"present={if ids.isEmpty then "-" else ",".intercalate (ids.map toString)}")
   | ["append", hx] =>
     match s.h, unhex hx with
     | some h, some data =>
       let (h', d') := appendL s.cap s.max h s.disk data
-      ({ s with disk := d', h := some h', hi := max s.hi h'.headId }, "ok")
+      ({ s with disk := d', h := some h', hi := max s.hi h'.headId,
+                present := presentAppend s.max h data s.present }, "ok")
     | _, _ => (s, "bad-op")
   | ["retrieve", i] =>
     match s.h, parseNat? i with
     | some h, some i =>
-      ({ s with h := some { h with cache := retrieveCache s.cap h s.disk i } }, retLine (retrieve h s.disk i))
+      ({ s with h := some { h with cache := retrieveCacheX s.cap h s.disk s.present i } },
+        retLine (retrieveX h s.disk s.present i))
     | _, _ => (s, "bad-op")
   | ["truncate", i] =>
     match s.h, parseNat? i with
     | some h, some i =>
       let (h', d') := truncateL s.cap h s.disk i
-      ({ s with disk := d', h := some h' }, "ok")
+      ({ s with disk := d', h := some h', present := presentTruncate s.cap h s.disk i s.present }, "ok")
     | _, _ => (s, "bad-op")
   | ["disk"] => (s, diskLine s.disk s.hi)
   | ["raw", ents, tail, files] =>
@@ -111,18 +119,24 @@ def step (s : St) (ts : List String) : St × String :=
         | none => []
       let hi := (ents.map (·.1) ++ files.map (·.1)).foldl max 0
       ({ s with disk := { idx := ents.map fun e => ⟨e.1, e.2⟩, tail := tail, files := fs }, h := none,
-                hi := hi }, "ok")
+                hi := hi, present := files.map (·.1) }, "ok")
     | _, _, _ => (s, "bad-op")
   | ["cutfile", fid, len] =>
     match parseNat? fid, parseNat? len with
-    | some fid, some len => ({ s with disk := s.disk.cutFile fid len, h := none }, "ok")
+    | some fid, some len =>
+      ({ s with disk := s.disk.cutFile fid len, h := none,
+                present := if s.present.contains fid then s.present else s.present ++ [fid] }, "ok")
     | _, _ => (s, "bad-op")
   | [op, il, fid, fl] =>
     if op = "cut" ∨ op = "cutopen" then
       match parseNat? il, parseNat? fid, (if fl = "rm" then some none else (parseNat? fl).map some) with
       | some il, some fid, some fl =>
         let d := applyCut s.disk il fid fl
-        if op = "cut" then ({ s with disk := d, h := none }, "ok")
+        if op = "cut" then
+          let pres := match fl with
+            | none => s.present.filter (· ≠ fid)
+            | some _ => if s.present.contains fid then s.present else s.present ++ [fid]
+          ({ s with disk := d, h := none, present := pres }, "ok")
         else
           match «open» d with
           | none => (s, "err")
